@@ -19,9 +19,9 @@ import (
 
 func TestMain(m *testing.M) {
 	vcore.Init("C12", "exploration",
-		"rapid single-session histories (<= 20 messages, then deletion) of Create/Update/Remove PDR with arbitrary URR lists over 4 URRs and 4 PDRs, Create/Remove/Query URR; URRs shared by several PDRs; associations created at PDR creation and added or moved by Update PDR. "+
+		"rapid single-session histories (<= 20 messages, then deletion) of Create/Update/Remove PDR with arbitrary URR lists over 4 URRs and 4 PDRs, Create/Remove/Query URR; URRs shared by several PDRs; associations created at PDR creation and added or moved by Update PDR; Update PDRs the session cannot apply (PDR never created, removed earlier, or removed by the same message) next to IEs that cause reports. "+
 			"Oracle: reference model = current URR list per PDR, reference count = number of PDRs whose list names the URR; expected usage-report multiset in the response to the very request: Remove URR -> one TERMR report; Remove PDR / Update PDR dropping the last reference -> one TERMR report for that URR; "+
-			"Query URR -> one IMMER report (and not TERMR); Deletion -> one TERMR report per existing URR; nothing else, nothing twice. "+
+			"Query URR -> one IMMER report (and not TERMR); Deletion -> one TERMR report per existing URR; nothing else, nothing twice - whatever cause the response carries. "+
 			"non-trivial = the history contains an association added by Update PDR that is later dissolved, or a URR shared by >= 2 PDRs whose last reference disappears; distinct by history",
 		"model data plane returns one usage report per query/remove of an existing URR",
 		"not generated (ambiguous or protocol violations, counted as excluded): Update PDR without URR IEs on a PDR that has URRs; PDRs naming URRs that do not exist; re-creating a live PDR id; touching the same URR by two report-causing IEs in one message; re-creating a URR id while a PDR still names it")
@@ -79,6 +79,7 @@ func setOf(ids []uint32) map[uint32]bool {
 type stats struct {
 	updAssocDissolved bool
 	sharedLastGone    bool
+	unknownUpdWithEnd bool // a message with an Update PDR the session cannot apply and a report due from another IE
 	excluded          map[string]int
 }
 
@@ -247,7 +248,7 @@ func gen(t *rapid.T) Case {
 		touchedP := map[uint32]bool{}
 		nr := rapid.IntRange(1, 4).Draw(t, "nrules")
 		for j := 0; j < nr; j++ {
-			switch rapid.SampledFrom([]string{"createurr", "createurr+pdr", "removeurr", "query", "queryremove", "createpdr", "removepdr", "updatepdr", "updatepdr", "updatepdr"}).Draw(t, "rule") {
+			switch rapid.SampledFrom([]string{"createurr", "createurr+pdr", "removeurr", "query", "queryremove", "createpdr", "removepdr", "updatepdr", "updatepdr", "updatepdr", "updatepdr-unknown"}).Draw(t, "rule") {
 			case "createurr", "createurr+pdr":
 				u := uint32(rapid.IntRange(1, 4).Draw(t, "urr"))
 				if urr[u] || urrOp[u] || touched[u] {
@@ -295,6 +296,15 @@ func gen(t *rapid.T) Case {
 				if _, ok := pdr[p]; ok || touchedP[p] {
 					continue
 				}
+				inMsg := false
+				for _, ru := range rules {
+					if ru.Kind == "PDR" && ru.ID == p {
+						inMsg = true // an Update PDR of this message already names it as unknown
+					}
+				}
+				if inMsg {
+					continue
+				}
 				// may name URRs created by this very message (the UPF creates URRs before PDRs)
 				l := pickURRs(false)
 				okl := true
@@ -331,6 +341,24 @@ func gen(t *rapid.T) Case {
 				delete(pdr, p)
 				touchedP[p] = true
 				rules = append(rules, stack.RuleOp{Verb: "remove", Kind: "PDR", ID: p})
+			case "updatepdr-unknown":
+				// an Update PDR the session cannot apply - the PDR was never created, was removed earlier, or is removed by this
+				// very message (removals are applied first): whatever the answer's cause, the reports that the other IEs of
+				// the message have caused belong into it
+				p := uint32(rapid.IntRange(1, 5).Draw(t, "pdr"))
+				if _, ok := pdr[p]; ok {
+					continue
+				}
+				dupl := false
+				for _, ru := range rules {
+					if ru.Kind == "PDR" && ru.ID == p && ru.Verb != "remove" {
+						dupl = true
+					}
+				}
+				if dupl {
+					continue
+				}
+				rules = append(rules, stack.RuleOp{Verb: "update", Kind: "PDR", ID: p, Prec: 3, URRs: pickURRs(false)})
 			case "updatepdr":
 				p := uint32(rapid.IntRange(1, 4).Draw(t, "pdr"))
 				l, ok := pdr[p]
@@ -459,6 +487,13 @@ func run(c Case) (v *vcore.Violation, stt stats) {
 		switch ev.Kind {
 		case "mod":
 			wantT, wantI := m.apply(ev.Rules, &stt)
+			if len(wantT)+len(wantI) > 0 {
+				for _, ru := range ev.Rules {
+					if ru.Kind == "PDR" && ru.Verb == "update" && ru.Prec == 3 {
+						stt.unknownUpdWithEnd = true
+					}
+				}
+			}
 			o := r.Step(stack.Op{Kind: "mod", Peer: 0, Sess: 0, Rules: ev.Rules})
 			if o.Dead != nil {
 				return vcore.Violatef(o.Dead.Key, "message %d: UPF fatal exit: %.400s", i, o.Dead.Msg), stt
@@ -553,6 +588,9 @@ func account(c Case, s stats) {
 	}
 	if s.sharedLastGone {
 		vcore.E.Class("shared_urr_last_reference_gone")
+	}
+	if s.unknownUpdWithEnd {
+		vcore.E.Class("report_due_in_a_message_with_an_update_pdr_that_cannot_be_applied")
 	}
 	if s.updAssocDissolved || s.sharedLastGone {
 		vcore.E.NonTrivial(vcore.JSON(c))
